@@ -14,13 +14,18 @@ def std_consts() -> str:
 
     def b(path, n):
         return tla_bspec(json.loads((d / path).read_text())["types"][n]["bound"])
-    return (f"StdInt == {b('arithmetic/int/types.json', 'int')}\nStdFloat == {b('arithmetic/float/types.json', 'float64')}\n"
+    ops_ = json.loads((d / "prelude.json").read_text())["operations"]
+
+    def q(x):
+        return json.dumps(x, ensure_ascii=False)
+    desc = "[" + ", ".join(f"{n} |-> {q(ops_[n]['description'])}" for n in ("MakeTuple", "UnpackTuple", "Noop")) + "]"
+    return (f"StdPreludeDesc == {desc}\n" f"StdInt == {b('arithmetic/int/types.json', 'int')}\nStdFloat == {b('arithmetic/float/types.json', 'float64')}\n"
             f"StdString == {b('prelude.json', 'string')}\nStdArr == {b('collections/array.json', 'array')}\n"
             f"StdLst == {b('collections/list.json', 'List')}\nStdSArr == {b('collections/static_array.json', 'static_array')}\n")
 
 
 STD_CFG = ("CONSTANT IntBSpec <- StdInt\nCONSTANT FloatBSpec <- StdFloat\nCONSTANT StringBSpec <- StdString\n"
-           "CONSTANT ArrBSpec <- StdArr\nCONSTANT LstBSpec <- StdLst\nCONSTANT SArrBSpec <- StdSArr\n")
+           "CONSTANT ArrBSpec <- StdArr\nCONSTANT LstBSpec <- StdLst\nCONSTANT SArrBSpec <- StdSArr\nCONSTANT PreludeDesc <- StdPreludeDesc\n")
 
 
 def root_module(wd, base: str) -> str:
@@ -81,6 +86,21 @@ def _codec(ctx, sig, ln, o, enc, objs):
             ctx.violation(dict(sig, what=f"encode ({how})"), ln, enc, e, clause="Enc(x) = EncOp(x)")
             return
     back = objs[-1][1]
+    # the same through the document-level entry points Hugr.to_json / Hugr.load_json
+    from hugr.hugr import Hugr
+    h = Hugr()
+    h.add_node(back, h.root)
+    doc = json.loads(h.to_json())
+    node = dict(doc["nodes"][1])
+    node.pop("parent", None)
+    if W.canon(W.strip_hugr(node)) != W.canon(W.strip_hugr(enc)):
+        ctx.violation(dict(sig, what="encode via Hugr.to_json"), ln, enc, node, clause="Enc(x) = EncOp(x) (document level)")
+        return
+    doc2 = json.loads(Hugr.load_json(h.to_json()).to_json())
+    if W.canon(doc2["nodes"]) != W.canon(doc["nodes"]):
+        ctx.violation(dict(sig, what="Hugr.load_json(to_json) re-encode"), ln, doc["nodes"][1], doc2["nodes"][1] if len(doc2["nodes"]) > 1 else None,
+                      clause="Enc(Dec(Enc(x))) = Enc(x) (document level)")
+        return
     pb = W.proj_op(back)
     if W.canon(W.strip_hugr(pb)) != W.canon(W.strip_hugr(enc)):
         ctx.violation(dict(sig, what="decode attributes"), ln, enc, pb, clause="Dec(Enc(x)) attribute by attribute")
